@@ -33,6 +33,13 @@ func goid() uint64
 //go:linkname inBubble runtime.simInBubble
 func inBubble() bool
 
+//go:linkname mapState runtime.simMapState
+var mapState uint64
+
+// SeedMaps makes map hash seeds and iteration offsets a function of x until SeedMaps(0):
+// code that ranges over a map (gtree's verifier does) then behaves the same on replay.
+func SeedMaps(x uint64) { mapState = x }
+
 // active returns the current run if the calling goroutine belongs to its bubble. A
 // goroutine outside any bubble (left over from an un-simulated reference call that is
 // still winding down) must never touch the scheduler: for it every hook is a pass-through.
